@@ -50,10 +50,12 @@
 /* ---- a pipe ---------------------------------------------------------------- */
 #define UF_PIPE_SCALAR(p)                                                     \
 	((p)->refresh > 0 && (p)->refresh <= UF_REFRESH_MAX)
-/* receive ring of a pipe: the real nni_lmq, capacity 16 (or the documented
- * fallback 2 when its allocation failed at pipe creation) */
+/* receive ring of a pipe: the real nni_lmq, capacity 16 in a 16-slot array (or the
+ * documented fallback: capacity 2 in the inline buffer, when its allocation failed at
+ * pipe creation); udp_pipe_init is its only initialiser and it is never resized */
 #define UF_RXMQ_PRE(p)                                                        \
-	(LMQ_INNER_PRE(&(p)->rx_mq) && (p)->rx_mq.lmq_cap >= 1 &&                 \
+	(((p)->rx_mq.lmq_alloc == 0 || (p)->rx_mq.lmq_alloc == UF_RXQ) &&         \
+	    LMQ_INNER_PRE(&(p)->rx_mq) && (p)->rx_mq.lmq_cap >= 1 &&              \
 	    (p)->rx_mq.lmq_cap <= UF_RXQ)
 #define UF_RXMQ_OK(p)                                                         \
 	(LMQ_WF_SCALAR(&(p)->rx_mq) && (p)->rx_mq.lmq_cap >= 1 &&                 \
